@@ -23,12 +23,13 @@ func init() {
 			"(R9) the service-worker restart loop is left/aborted by the module's own context and stop flag (= C06-R5); " +
 			"(R10) Module.Ctx and Task.ctx are overwritten (outside constructors) only after the old cancel function was called or found nil: work that got the old context (from prep, or left over from a failed start) is otherwise never cancelled by stop; " +
 			"(R11) stop completion survives a panic: the control-function flag is cleared and checkIfStopComplete runs on every path of the deferred code of startCtrlFn and executeWithLocking (= C06-R2); " +
+			"(R12) an event hook is bound to the module that registers it (eventHook.hookingModule is the receiver of RegisterEventHook), so it runs as that module's worker with that module's context; " +
 			"NOT decided: promptness/timeouts, the real overlap of finishing goroutines with the stopper under all schedules.",
 		Rules: []ruleFn{c05R1, c05R2, c05R3, c05R4, c05R5, c05R6,
 			lockRuleFor("C05-R7", 25, []string{"modules"}, []string{}, map[string]string{}),
 			borrowRule(c01R6, "C01-R6", "C05-R8", 2, func(s string) bool { return strings.Contains(s, "stopModules") }),
 			borrowRule(c06R5, "C06-R5", "C05-R9", 2, nil), c05R10,
-			borrowRule(c06R2, "C06-R2", "C05-R11", 4, func(s string) bool { return strings.Contains(s, "startCtrlFn") || strings.Contains(s, "checkIfStopComplete") })},
+			borrowRule(c06R2, "C06-R2", "C05-R11", 4, func(s string) bool { return strings.Contains(s, "startCtrlFn") || strings.Contains(s, "checkIfStopComplete") }), c05R12},
 	})
 }
 
